@@ -1,5 +1,65 @@
-import Solvor.Net.Model
-/-! Net: property theorems only (helper lemmas live in Lemmas.lean). -/
+import Solvor.Net.Lemmas
+/-!
+Net: the property theorems of C15 (helper lemmas are in `Lemmas.lean` / `RatLemmas.lean`).
+-/
 namespace Solvor.Net
+
+/-! ## T-spec: the component count the definitions of cut vertex / bridge are evaluated with -/
+
+/-- C15 [C] `components_count_correct`: `comps nodes arc` is the list of connected components of
+the symmetric closure of `arc` restricted to `nodes` – every entry is exactly the reachability class
+of a node, the entries are pairwise disjoint and cover the node set – and `compCount`, its length,
+is *the* number of components: every transversal of the reachability classes has that length. -/
+theorem components_count_correct (nodes : List Nat) (arc : Nat → Nat → Bool) :
+    (∀ c ∈ comps nodes arc, ∃ r ∈ nodes, ∀ w, w ∈ c ↔ Reach nodes arc r w) ∧
+    (comps nodes arc).Pairwise (fun a b => ∀ v ∈ a, v ∉ b) ∧
+    (∀ v ∈ nodes, ∃ c ∈ comps nodes arc, v ∈ c) ∧
+    (∀ R, IsTransversal nodes arc R → R.length = compCount nodes arc) := by
+  obtain ⟨hok, _, hcov⟩ := compsAux_spec (nodes := nodes) (arc := arc) nodes []
+    (fun v hv => hv) ⟨by simp, by simp⟩
+  refine ⟨hok.classes, hok.disjoint, hcov, ?_⟩
+  intro R hR
+  unfold compCount
+  change R.length = (comps nodes arc).length
+  have hC : ∀ c ∈ comps nodes arc, ∃ r ∈ nodes, ∀ w, w ∈ c ↔ Reach nodes arc r w := hok.classes
+  apply Nat.le_antisymm
+  · -- R → comps
+    apply length_le_of_inj (fun (r : Nat) (c : List Nat) => r ∈ c) R (comps nodes arc)
+    · refine hR.apart.imp ?_
+      intro r r' hrr c hc hrc hr'c
+      obtain ⟨r0, _, h0⟩ := hC c hc
+      exact hrr (((h0 r).1 hrc).symm.trans ((h0 r').1 hr'c))
+    · intro r hr; exact hcov r (hR.sub r hr)
+  · -- comps → R
+    apply length_le_of_inj (fun (c : List Nat) (r : Nat) => r ∈ c) (comps nodes arc) R
+    · refine hok.disjoint.imp ?_
+      intro a b hab r _ hra hrb
+      exact hab r hra hrb
+    · intro c hc
+      obtain ⟨r0, hr0, h0⟩ := hC c hc
+      obtain ⟨r, hr, hrr⟩ := hR.cover r0 hr0
+      exact ⟨r, hr, (h0 r).2 hrr.symm⟩
+
+/-- non-vacuity: a path 0–1–2 (listed from one side only) plus the isolated node 3 -/
+example : comps [0, 1, 2, 3] (fun u w => (u, w) == (1, 0) || (u, w) == (1, 2)) = [[0, 1, 2], [3]] := by decide
+example : IsTransversal [0, 1, 2, 3] (fun u w => (u, w) == (1, 0) || (u, w) == (1, 2)) [2, 3] := by
+  have h := components_count_correct [0, 1, 2, 3] (fun u w => (u, w) == (1, 0) || (u, w) == (1, 2))
+  refine ⟨by simp, ?_, ?_⟩
+  · simp only [List.pairwise_cons, List.mem_singleton, forall_eq, List.not_mem_nil, false_imp_iff,
+      implies_true, List.Pairwise.nil, and_true]
+    intro hr
+    have := (mem_closure_iff (nodes := [0, 1, 2, 3])
+      (arc := fun u w => (u, w) == (1, 0) || (u, w) == (1, 2)) (s := 2) (by simp) 3).2 hr
+    revert this; decide
+  · intro v hv
+    have h2 : ∀ w, w ∈ closure [0, 1, 2, 3] (fun u w => (u, w) == (1, 0) || (u, w) == (1, 2)) 2 →
+        Reach [0, 1, 2, 3] (fun u w => (u, w) == (1, 0) || (u, w) == (1, 2)) 2 w :=
+      fun w => (mem_closure_iff (by simp) w).1
+    simp only [List.mem_cons, List.not_mem_nil, or_false] at hv
+    rcases hv with rfl | rfl | rfl | rfl
+    · exact ⟨2, by simp, h2 0 (by decide)⟩
+    · exact ⟨2, by simp, h2 1 (by decide)⟩
+    · exact ⟨2, by simp, Reach.refl _⟩
+    · exact ⟨3, by simp, Reach.refl _⟩
 
 end Solvor.Net
